@@ -329,7 +329,7 @@ pub fn enumerate(thorough: bool) -> (Vec<Scen>, Vec<u32>, Value) {
 
     // ---- seq2: reuse decisions ----------------------------------------------------------------
     let mut seq2 = Vec::new();
-    let seconds: &[Framing] = if thorough { &[Framing::Cl5, Framing::Chunked, Framing::Head, Framing::Cl0] } else { &[Framing::Cl5, Framing::Chunked, Framing::Head] };
+    let seconds: &[Framing] = if thorough { &[Framing::Cl5, Framing::Chunked, Framing::Head, Framing::Cl0] } else { &[Framing::Cl5, Framing::Head] };
     for f in SMALL {
         let r = build(f, 0, Leftover::None);
         for c in [Consumer::Full, Consumer::Stream, Consumer::DropHead, Consumer::Partial] {
@@ -369,7 +369,7 @@ pub fn enumerate(thorough: bool) -> (Vec<Scen>, Vec<u32>, Value) {
     }
     add_group(
         "seq2",
-        "2 sequential requests to one authority, limit 1; first: 18 framings x {body(), stream, dropped after head, partial then dropped} x {open, FIN/reset after the complete response, FIN mid-body / 1 before end / at head end / in head} x leftover {none, junk, stale response}; second: cl5 | chunked | HEAD read fully",
+        "2 sequential requests to one authority, limit 1; first: 18 framings x {body(), stream, dropped after head, partial then dropped} x {open, FIN/reset after the complete response, FIN mid-body / 1 before end / at head end / in head} x leftover {none, junk, stale response}; second: cl5 | HEAD (thorough: + chunked, cl0) read fully",
         seq2,
         if thorough { 3 } else { 2 },
         &mut scs,
